@@ -9,7 +9,7 @@ quantifies over all values and all iteration orders.  `qty m p n` is the
 integer quantity of (policy, name) (0 when absent, zero or nil).
 -/
 namespace GV.Props.C06
-open GV.Model.MultiAsset GV.Lib.AssocMap GV.Proofs.MultiAsset
+open GV.Model.MultiAsset GV.Lib.AssocMap GV.Lib.CborLite GV.Proofs.MultiAsset
 
 /-- Equality (`Compare`, with its length shortcuts as coded) means: equal quantities for
     every (policy, asset name) — i.e. equal non-zero quantities, zeros and nils ignored. -/
